@@ -607,7 +607,7 @@ func init() {
 	core.Register(&core.Check{
 		Spec: core.Spec{
 			Prop:        "C16",
-			Rule:        "PRNG call sequences (20-80 calls plus a barrier-started concurrent block every 15 calls) by 4 honest clients and one dishonest client against the real notary handlers on a real node, with a reference state machine kept by the harness (awaiting set, receiver authorisations issued, latest challenge per address). Calls: honest propose (spice / contract), repeated proposal of an awaited contract, confirm with a verifying receiver signature, reject signed by the receiver, dishonest confirm (stranger's / issuer's signature, receiver's signature over other content, issuer signature copied), dishonest reject (stranger, issuer, cross-wired address), dishonest propose (wrong key, content changed after signing), reads without key ownership (victim's challenge signed by the attacker, attacker's challenge for the victim's address, re-issued / never issued / expired challenge, balance with a foreign signature or swapped address), honest reads. After every call: every data-carrying transaction in the ledger snapshot has a receiver authorisation issued before; no transaction in two vertices; a call with a signature known to be invalid returns an error and leaves ledger and awaiting listings unchanged (dropping an invalid tentative tip is the one tolerated change); unauthorised reads return no data; Waiting answers equal the model's awaiting set per address; at most one of several concurrent confirm/reject calls of one transaction succeeds. Ledger-level refusals are always admissible (validator style). Non-trivial = every call; distinct by (call kind, variant, outcome). Dishonest Confirm variants include an absent, an empty and a one byte receiver signature. Awaiting entries are compared by hash and content (a refused request must not alter a stored contract, e.g. attach a signature to it). Dishonest Reject also with a genuine receiver signature made for another purpose: over the hash followed by other text, over a truncated hash.",
+			Rule:        "PRNG call sequences (20-80 calls plus a barrier-started concurrent block every 15 calls) by 4 honest clients and one dishonest client against the real notary handlers on a real node, with a reference state machine kept by the harness (awaiting set, receiver authorisations issued, latest challenge per address). Calls: honest propose (spice / contract), repeated proposal of an awaited contract, confirm with a verifying receiver signature, reject signed by the receiver, dishonest confirm (stranger's / issuer's signature, receiver's signature over other content, issuer signature copied), dishonest reject (stranger, issuer, cross-wired address), dishonest propose (wrong key, content changed after signing), reads without key ownership (victim's challenge signed by the attacker, attacker's challenge for the victim's address, re-issued / never issued / expired challenge, balance with a foreign signature or swapped address), honest reads. After every call: every data-carrying transaction in the ledger snapshot has a receiver authorisation issued before; no transaction in two vertices; a call with a signature known to be invalid returns an error and leaves ledger and awaiting listings unchanged (dropping an invalid tentative tip is the one tolerated change); unauthorised reads return no data; Waiting answers equal the model's awaiting set per address; at most one of several concurrent confirm/reject calls of one transaction succeeds. Ledger-level refusals are always admissible (validator style). Non-trivial = every call; distinct by (call kind, variant, outcome). Dishonest Confirm variants include an absent, an empty and a one byte receiver signature. Awaiting entries are compared by hash and content (a refused request must not alter a stored contract, e.g. attach a signature to it). Dishonest Reject also with a genuine receiver signature made for another purpose: over the hash followed by other text, over a truncated hash. Contracts whose data are blank bytes, with spice.",
 			Assumptions: []string{"expiry is only tested in the safe direction (the harness outwaits a 1 s longevity by 0.3 s)", "the read throttle is cleared by the harness before reads; a throttle error is always admissible"},
 			MinEvals:    300, MinNontriv: 25,
 		},
